@@ -168,6 +168,17 @@ pub fn try_with<R>(f: impl FnOnce(&mut State) -> R) -> Option<R> {
     })
 }
 
+/// drop the state of a run that ended by unwinding (bench mode only)
+pub fn abandon() {
+    STATE.with(|s| {
+        if let Ok(mut b) = s.try_borrow_mut() {
+            if let Some(st) = b.take() {
+                std::mem::forget(st);
+            }
+        }
+    });
+}
+
 pub fn active() -> bool {
     STATE.with(|s| s.try_borrow().map(|b| b.is_some()).unwrap_or(true))
 }
@@ -211,15 +222,21 @@ impl State {
     pub fn count(&mut self, k: &str, n: u64) {
         *self.counters.entry(k.to_string()).or_insert(0) += n;
     }
-    pub fn violate(&mut self, invariant: &str, shape: &str, detail: String) {
-        if self.violation.is_none() {
-            self.log(&format!("VIOLATION {invariant} [{shape}] {detail}"));
-            self.violation = Some(Violation {
-                invariant: invariant.to_string(),
-                shape: shape.to_string(),
-                detail,
-            });
+    /// records a violation; returns true when it ends the run, false when it matches a listed
+    /// known finding (then it is only counted and the run goes on)
+    pub fn violate(&mut self, invariant: &str, shape: &str, detail: String) -> bool {
+        let v = Violation { invariant: invariant.to_string(), shape: shape.to_string(), detail };
+        if crate::supervisor::is_known(&v) {
+            let key = crate::supervisor::violation_key(&v);
+            self.log(&format!("KNOWN {key} {}", v.detail));
+            self.count(&format!("known.{key}"), 1);
+            return false;
         }
+        if self.violation.is_none() {
+            self.log(&format!("VIOLATION {invariant} [{shape}] {}", v.detail));
+            self.violation = Some(v);
+        }
+        true
     }
     pub fn ext<T: Any + Default>(&mut self) -> &mut T {
         self.ext
@@ -290,7 +307,7 @@ pub fn count(k: &str) {
 pub fn count_n(k: &str, n: u64) {
     with(|st| st.count(k, n))
 }
-pub fn violate(invariant: &str, shape: &str, detail: String) {
+pub fn violate(invariant: &str, shape: &str, detail: String) -> bool {
     with(|st| st.violate(invariant, shape, detail))
 }
 pub fn violated() -> bool {
